@@ -126,6 +126,11 @@ type teeW struct {
 func (t *teeW) Write(p []byte) (int, error) { *t.buf = append(*t.buf, p...); return t.w.Write(p) }
 func (t *teeW) Close() error                { return t.w.Close() }
 
+type nopWC struct{}
+
+func (nopWC) Write(p []byte) (int, error) { return len(p), nil }
+func (nopWC) Close() error                { return nil }
+
 type wsCfg struct {
 	client               bool
 	compress             bool
@@ -369,6 +374,31 @@ func exec(e *lp.Exec) {
 			e.Count("cases", "mask")
 			e.P("> %s", line)
 			e.P("ok")
+		case f[0] == "C" && len(f) > 1 && f[1] == "trunc":
+			finish()
+			mode = "trunc"
+			e.Count("cases", "trunc")
+			e.P("> %s", line)
+			e.P("ok")
+		case f[0] == "T" && mode == "trunc" && len(f) >= 2:
+			// the real truncWriter fed with the chunks: what it passes on
+			var got []byte
+			tw := websocket.VerifTruncWriter(&teeW{w: nopWC{}, buf: &got})
+			var all []byte
+			for _, c := range strings.Split(f[1], ",") {
+				b := parseSpec(c)
+				all = append(all, b...)
+				tw.Write(b)
+			}
+			want := []byte{}
+			if len(all) > 4 {
+				want = all[:len(all)-4]
+			}
+			if !bytes.Equal(got, want) {
+				e.Oracle("c12-trunc", "truncWriter passed on %s for the stream %s", short(got), short(all))
+			}
+			e.P("> %s", line)
+			e.P("R %s", short(got))
 		case f[0] == "C" && len(f) > 1 && f[1] == "utf8":
 			finish()
 			mode = "utf8"
